@@ -2,7 +2,7 @@
    theorems in C04/Properties.v, and the witnesses that refuted three statements of the
    earlier code, replayed on the model of the repaired code. Concrete runs are evaluated by
    vm_compute only. *)
-From XV Require Import lib.Bytes gen.NegTables C04.Model C04.Generic C04.Structure C04.Fuel C04.Proofs C04.Properties.
+From XV Require Import lib.Bytes gen.NegTables C04.Model C04.Generic C04.Structure C04.Fuel C04.Steps C04.Proofs C04.Properties.
 
 (* receiver, SASL PLAIN + bind on a secure connection (harness scenario recv-sasl-bind) *)
 Definition ex_cfg : config :=
@@ -57,6 +57,13 @@ Example ex_voluntary_ready_then_failure :
   fst ex2_run = RErr /\ is_ready (w_bits (snd ex2_run)) = false /\
   In (ENegOk 0 4%N RSNone) (w_trace (snd ex2_run)).
 Proof. vm_compute. repeat split. tauto. Qed.
+
+(* ... and that run shows what a failed Negotiate leaves in the trace: two started, one completed *)
+Example ex_failed_negotiate_unbalanced :
+  starts (w_trace (snd ex2_run)) = 2 /\ oks (w_trace (snd ex2_run)) = 1 /\
+  starts (w_trace (snd (ex_run (mkPlan FNone None true true true)))) = 2 /\
+  oks (w_trace (snd (ex_run (mkPlan FNone None true true true)))) = 2.
+Proof. vm_compute. repeat split. Qed.
 
 (* former witness 3 (session.go ignored a cancellation after the last stream header):
    initiator, header and empty features list in two Reads, cancelled when the second Read is
